@@ -24,6 +24,11 @@ def run(chk):
             jobs.append(('k%d' % k, ['codec-block', '--blocks', '%d:1' % k, '--seqs', 12]))
         rankmax = 110
     ok, st = cc.run_traces(chk, exe, jobs, rankmax, nproc=14, timeout=10000)
+    # the solver's own steps: operation vectors recorded while decoding random received sets (standard and GF(2)-only route,
+    # both back-ends) replayed on the RFC matrix of that set as behaviours of Elim.tla
+    from props import plans_common as pc
+    pg = [[2, 5, 10], [13, 19], [26], [33], [40]] if chk.quick else [[k] for k in (1, 2, 3, 5, 7, 10, 11, 13, 17, 19, 23, 26, 30, 33, 40, 49, 60, 75, 101)]
+    ok = pc.run_plans(chk, exe, pg, 4 if chk.quick else 10, 'c02') and ok
     # the None direction: hunt for failing sets with the real decoder, TLC certifies each one as rank deficient
     from props import c03
     hk, n0, n1 = ([10, 13, 19, 26], 40000, 200000) if chk.quick else ([10, 11, 13, 19, 26, 31, 40, 49, 60], 400000, 4000000)
